@@ -41,6 +41,7 @@ FIXED = [
  ("C06", "F31-huge-object-file", "an object file far longer than the address space", "`truncate -s 200G big.lc3; lace run big.lc3` aborted (SIGABRT, status 134: `Vec::with_capacity(file size)` before any check) instead of the 'too long' error exit; a 4 GiB file was read whole before being rejected"),
  ("C18", "F32-flag-before-subcommand", "written before the sub-command takes effect", "`lace -f stack run s.asm` (also check / compile / debug, and `run img.lc3`) parsed and validated the flag, then ignored it: the extension source was rejected naming the feature although the flag was given"),
  ("C20", "F33-blank-history-line", "blank lines in the debugger", "history file `reg`, `   `, ``, `print r1` (hand-edited), keys Up Enter Up Up Enter ...: Enter on a recalled blank line submitted it - read_line's debug_assert panicked (status 101) in debug builds, release builds handed an empty command to the parser"),
+ ("C09", "F34-instruction-counter", "count of instructions since the last prompt is 64 bits", "a terminating program that executes 2^32 instructions under one `continue` (nested countdown, outer count x8001) ended with a panic (`attempt to add with overflow`, status 101, after 8.5 min) under `lace debug` in the debug profile; plain `lace run` exits 0"),
  ("C20", "F27-ctrl-right-trailing-spaces", "Ctrl+Right from a word followed only by spaces", "keys a, space, space, Ctrl+Left, Ctrl+Right, +, Enter submitted `a+  ` instead of `a  +` (cursor stopped after the word instead of the end of line)"),
 ]
 KNOWN = [
